@@ -21,7 +21,8 @@ for n in sorted(os.listdir(os.path.join(HERE, "seeded"))):
         notes.append(f"(*) {n}: {m['history']}")
 hdr = ("Round 1: 36 changes written by 18 independent sub-agents (two per property); round 2: 18 further changes (`*_C`), one per property,\n"
        "with the instruction to differ from round 1 and be harder to notice; round 3 (`*_D`): 18 further changes, one per property, by 18\n"
-       "fresh sub-agents that were given the one-line summaries of the earlier changes for their property and told to use a different location and mechanism; `own_D*`: each of my own `fix:` commits\n"
+       "fresh sub-agents that were given the one-line summaries of the earlier changes for their property and told to use a different location and mechanism; round 4 (`*_E`): 6 more for the properties\n"
+       "whose checks had missed a round-3 change (C01, C05, C06, C08, C12, C14); `own_D*`: each of my own `fix:` commits\n"
        "un-applied (tools/ownfix.py; their shrunk replays became corpus regression cases).  The agents (each saw only the property record and a scratch worktree, nothing of\n"
        "/verif).  For each one `tools/seedall.py` confirmed in a scratch worktree: the demonstration passes without the patch and\n"
        "fails with it, the repo's 299-test baseline stays green with it, and ran the property's quick check with `VF_REPO` pointing\n"
